@@ -6,15 +6,15 @@ BASELINE = json.load(open('/root/.vp/BASELINE.json'))['cmd']
 
 CHECKS = {
  "C19": dict(level="exploration", design="DESIGN.md §4 C19",
-   text="For every program of the product raising operation x operand values (including values longer than the 20-character abbreviation, arrays, functions, multi-line strings) x failure site (top level, call depth 1..4 with reassigned parameters, through function-valued parameters and closures, loop bodies, generators, nested generators, zips, built-ins), and for every failing member of the operand-source x statement-context product, the statements are run through the real processInput of the read-eval loop and the captured report is parsed and compared with the reference model's record of the failure: class, the single marked instruction (which must be the one the step hook saw last and belong to the failing operation's family), operand values in source order, and per context the active calls innermost first with call-site names and current parameter values.",
+   text="For every program of the product raising operation x operand values (including values longer than the 20-character abbreviation, arrays, functions, multi-line strings) x failure site (top level, call depth 1..4 with reassigned parameters, through function-valued parameters and closures, loop bodies, generators, nested generators, zips, built-ins), and for every failing member of the operand-source x statement-context product, the statements are run through the real processInput of the read-eval loop and the captured report is parsed and compared with the reference model's record of the failure: class, the single marked instruction (which must be the one the step hook saw last and belong to the failing operation's family), operand values in source order, and per context the active calls innermost first with call-site names and current parameter values. Also: operand and parameter values around the 20-byte display limit (incl. multi-byte text), and the bytes the host allocates while a report with a 2^8..2^14-element operand is produced (no clock).",
    note="Trusts the reference model's failure record (operation, operands, active calls per coroutine) and the report grammar read off the documented sample; context addresses are not compared.",
    technique="bounded exhaustive enumeration of failing programs with the report text parsed and compared against an executable reference model's failure trace"),
  "C17": dict(level="exploration", design="DESIGN.md §4 C17",
-   text="The contracts of the eight built-ins are checked on every element of finite argument alphabets: toa against write for 57 values of every kind and nesting, aton(toa(n)) == n for boundary ints and 210 finite floats, fromto over all pairs in -3..3 and at both ends of the int range, elems/indices (alone and zipped) over every array and string of length 0..4 (also after the program rebinds another built-in's name), wrong kinds and arities, fromto/elems/indices running three and four at once after a user generator over a built-in one was abandoned and its contexts reused, and - through the built binary - every stdin of up to 3 lines (with and without final line break) against 0..4 read() calls in -eval and file mode, plus exit() with valid and invalid arguments.",
+   text="The contracts of the eight built-ins are checked on every element of finite argument alphabets: toa against write for 57 values of every kind and nesting, aton(toa(n)) == n for boundary ints and 210 finite floats, fromto over all pairs in -3..3 and at both ends of the int range, elems/indices (alone and zipped) over every array and string of length 0..4 (also after the program rebinds another built-in's name), wrong kinds and arities, fromto/elems/indices running three and four at once after a user generator over a built-in one was abandoned and its contexts reused, and - through the built binary - every stdin of up to 3 lines (with and without final line break) against 0..4 read() calls in -eval and file mode, plus exit() with valid and invalid arguments. Also 3..1500 lines of 1..5000 characters read into an array and written afterwards (a kept line never changes).",
    note="Expected results are computed by the reference model's value rendering and the stated contracts; argument values outside the alphabets are not covered.",
    technique="exhaustive enumeration of finite argument and input-history alphabets against the stated contracts"),
  "C16": dict(level="model_checking", design="DESIGN.md §4 C16",
-   text="(a) Explicit-state search over every sequence of up to 4 (5) script lines from a 22-line alphabet (block openers/closers/else, array literals and strings split over lines, strings and comments containing every delimiter, escaped quotes and backslashes, blank lines) fed to the real read-eval loop through the real file reader (with and without final newline) and a REPL-style line reader with a recording parser; the inputs handed to the parser must equal, token for token, the statements a lexer-aware splitter finds. (b) Every script of up to 2 (3) statements from a 43-statement alphabet (including lines holding two statements) run through the built binary in -eval (single statements), piped-REPL and file mode; each mode's output must equal what in-process statement-by-statement execution predicts.",
+   text="(a) Explicit-state search over every sequence of up to 4 (5) script lines from a 22-line alphabet (block openers/closers/else, array literals and strings split over lines, strings and comments containing every delimiter, escaped quotes and backslashes, blank lines) fed to the real read-eval loop through the real file reader (with and without final newline) and a REPL-style line reader with a recording parser; the inputs handed to the parser must equal, token for token, the statements a lexer-aware splitter finds. (b) Every script of up to 2 (3) statements from a 43-statement alphabet (including lines holding two statements) run through the built binary in -eval (single statements), piped-REPL and file mode; each mode's output must equal what in-process statement-by-statement execution predicts. (c) Inputs no mode can execute (a statement too large for the instruction format; inputs that end inside an open construct) in all four modes: no abort, the same diagnostic as -eval, the surrounding statements run.",
    note="The splitter model and the in-process expected output are harness side; ill-formed line sequences are skipped and counted; runtime error reports are compared on their first line.",
    technique="explicit-state exploration of line sequences on the real read-eval loop against a splitter model + exhaustive script x run-mode enumeration on the built binary"),
  "C18": dict(level="model_checking", design="DESIGN.md §4 C18",
@@ -26,15 +26,15 @@ CHECKS = {
    note="Trusts the reference model only for the baseline of each function; all other comparisons are between runs of the real VM. Functions, contexts and histories outside the alphabets are not covered.",
    technique="bounded exhaustive enumeration of function x context x history with a differential oracle on the real code"),
  "C04": dict(level="exploration", design="DESIGN.md §4 C04",
-   text="Every point of a seven-dimensional product of scope skeletons (shadowed global or not, 0/1/199 other locals, where the variable is defined, 11 inner-function shapes, updates after capture with and without stack growth, six ways the inner function is used or escapes, stack churn before an escaped function is called) plus recursive definers at depth 3/50/200 is executed with unique tags on every write; every read must hit the binding the by-name rules predict, and globals, caller variables and arguments are rendered before and after every call. A differential family checks that every activation starts with empty variables: functions with 0..3 parameters and 1..4 conditionally assigned variables, called directly / nested / in a loop / in a generator after six kinds of polluting statements, must answer as in a fresh session.",
+   text="Every point of a seven-dimensional product of scope skeletons (shadowed global or not, 0/1/199 other locals, where the variable is defined, 11 inner-function shapes, updates after capture with and without stack growth, six ways the inner function is used or escapes, stack churn before an escaped function is called) plus recursive definers at depth 3/50/200 is executed with unique tags on every write; every read must hit the binding the by-name rules predict, and globals, caller variables and arguments are rendered before and after every call. A differential family checks that every activation starts with empty variables: functions with 0..3 parameters and 1..4 conditionally assigned variables, called directly / nested / in a loop / in a generator after six kinds of polluting statements, must answer as in a fresh session. Directed families: for statements whose variables are parameters, earlier locals or new names; closures handed out by generators whose loop is abandoned; the stack-growing skeletons after a failed statement; and six directed programs (closures written in an iterator expression; names read before the text assigns them) whose failures are listed in known_findings.json and printed as KNOWN-FINDING lines.",
    note="Trusts the reference model's scoping rules (own, one-level captured, global); programs whose reads are ambiguous between the lexical and the dynamic reading (D-use-before-def) are skipped and counted.",
    technique="exhaustive enumeration of a finite product of scope skeletons with tagged writes against an executable reference model"),
  "C08": dict(level="model_checking", design="DESIGN.md §4 C08",
-   text="Explicit-state search over session histories: every sequence of up to 3 (4) statements from an alphabet of 34 (good statements; lexer, parser and unbalanced-input errors; every runtime error class at top level, at depth, in loop bodies, in suspended and nested generators, in a zip, in closures, with partial global effects; a top-level return out of nested loops) is replayed on a fresh real VM and followed by 14 observers; each statement is compared with the reference model, the machine must be at rest after every statement (hooks), and the observers must answer exactly as in the failure-free twin session holding the same globals.",
+   text="Explicit-state search over session histories: every sequence of up to 3 (4) statements from an alphabet of 34 (good statements; lexer, parser and unbalanced-input errors; every runtime error class at top level, at depth, in loop bodies, in suspended and nested generators, in a zip, in closures, with partial global effects; a top-level return out of nested loops) is replayed on a fresh real VM and followed by 15 observers; each statement is compared with the reference model, the machine must be at rest after every statement (hooks), and the observers must answer exactly as in the failure-free twin session holding the same globals.",
    note="States (reference global store + machine state) are reported for coverage; every history is executed in full on the real VM (traces_validated_against_impl = histories). Longer histories and other failing statements are not covered.",
    technique="explicit-state exploration of statement histories on the real session object with a reference model, hook invariants and a differential failure-free twin"),
  "C10": dict(level="model_checking", design="DESIGN.md §4 C10",
-   text="Explicit-state search over every sequence of up to 3 (4) of 57 array/string operations (arrays of 33-40 elements, literals whose later element re-enters the same literal through recursion or a suspended generator, one array extended under two names inside a function, two statements ending in a runtime error after redefining functions that hold literals) on seven globals (literals at top level / in functions / in loops, all slices, concatenations of slices, nested arrays, passing, iterating, capture in closures and generators); after every operation an observer evaluating every variable, the accumulated earlier results, a literal-returning function and a closure is compared between the real VM and a reference model that copies always. Sequences of length <= 2 and all sequences containing a failing statement are also typed into the real read-eval loop, whose echo of every observer must equal the in-process value. States are (renderings, len/cap, backing-array sharing relation) read through the value hook.",
+   text="Explicit-state search over every sequence of up to 3 (4) of 57 array/string operations (arrays of 33-40 elements, literals whose later element re-enters the same literal through recursion or a suspended generator, one array extended under two names inside a function, two statements ending in a runtime error after redefining functions that hold literals) on seven globals (literals at top level / in functions / in loops, all slices, concatenations of slices, nested arrays, passing, iterating, capture in closures and generators); after every operation an observer evaluating every variable, the accumulated earlier results, a literal-returning function and a closure is compared between the real VM and a reference model that copies always. Sequences of length <= 2 and all sequences containing a failing statement are also typed into the real read-eval loop, whose echo of every observer must equal the in-process value. States are (renderings, len/cap, backing-array sharing relation) read through the value hook. Directed families against the same reference: literal shapes (0..10 leading constants, computed tails) evaluated repeatedly, and every concatenation chain of 3 and 4 operands over literals, views, empty arrays, call results and 33..41-element arrays.",
    note="distinct_nontrivial counts sequences after which two live arrays really share a backing array with spare capacity; longer sequences and other operations are not covered.",
    technique="explicit-state exploration of operation sequences on the real VM against a copying reference model, with sharing measured through a hook"),
  "C09": dict(level="exploration", design="DESIGN.md §4 C09",
@@ -50,7 +50,7 @@ CHECKS = {
    note="Trusts the reference model's coroutine reading of for/yield (calibrated on all TestCalc iterator rows and the Readme examples); generator-side reads the description leaves open (D-fork) are skipped.",
    technique="bounded exhaustive enumeration of generator/body/placement/history combinations with conformance checking against an executable reference model"),
  "C05": dict(level="exploration", design="DESIGN.md §4 C05",
-   text="Totality of compile+run on the real pipeline over unfiltered program families: the adversarial operator/operand/condition/callee/arity product at operand depth 0..2, every statement of up to 4 (5) nodes over an adversarial leaf alphabet at top level and as a function body, the operand-source x context products with the full operand list, the generator families, and every token sequence of length <= 4 (5) the parser accepts. Any host panic, undocumented error class or (in the described domain) non-termination is a violation.",
+   text="Totality of compile+run on the real pipeline over unfiltered program families: the adversarial operator/operand/condition/callee/arity product at operand depth 0..2, every statement of up to 4 (5) nodes over an adversarial leaf alphabet at top level and as a function body, the operand-source x context products with the full operand list, the generator families, and every token sequence of length <= 4 (5) the parser accepts. Any host panic, undocumented error class or (in the described domain) non-termination is a violation. Also every parameter list of length <= 3 over two names (repeated names included) x 14 bodies x every arity, and five 33000-statement sessions that cross the data-segment limit.",
    note="Go panics are recovered in-process and attributed by call site; fatal runtime errors kill a worker and are attributed through its progress record. Termination is judged with instruction fuel derived from the reference model's step count.",
    technique="bounded exhaustive enumeration of accepted programs under instruction fuel with a crash/termination oracle"),
  "C15": dict(level="exploration", design="DESIGN.md §4 C15",
@@ -66,7 +66,7 @@ CHECKS = {
    note="Fuel (loop iterations of the lexer plus TLexer.Next/Snapshot calls, 2000 per byte against a measured maximum of about 50) stands in for 'finite time'; characters outside the alphabet and longer inputs are not covered.",
    technique="exhaustive enumeration of all strings / token sequences up to a length bound under step fuel, with direct invariant checks on every result"),
  "C01": dict(level="exploration", design="DESIGN.md §4 C01",
-   text="Bounded-exhaustive conformance of the real pipeline (parser, symbol rewriter, bytecode compiler, VM built from the working tree) against an executable reference model of the documented language: every program of the operand-source x statement-context and operand-source x expression-context products (about a million sessions in the quick tier) is executed on a fresh VM and on the model and compared on value, output and error class, statement by statement; further families: statements by size, the statement-position product, generator loops, scope skeletons with three-level nesting, and every comparison (plain, negated, doubly negated) over NaN/Inf/-0.0/int-float pairs in twelve value positions.",
+   text="Bounded-exhaustive conformance of the real pipeline (parser, symbol rewriter, bytecode compiler, VM built from the working tree) against an executable reference model of the documented language: every program of the operand-source x statement-context and operand-source x expression-context products (about a million sessions in the quick tier) is executed on a fresh VM and on the model and compared on value, output and error class, statement by statement; further families: statements by size, the statement-position product, generator loops, scope skeletons with three-level nesting, and every comparison (plain, negated, doubly negated) over NaN/Inf/-0.0/int-float pairs in twelve value positions. Also one value used as the operand of two further operations (F7) and all pairwise compositions of the 22 expression contexts over six temp-register shapes (F8).",
    note="Trusts the reference model refsem (self-tested against every TestCalc row and Readme example before each run) and the domain restriction stated in DESIGN.md §3.3; programs outside the enumerated families and bounds are not covered.",
    technique="bounded exhaustive enumeration of programs (products of finite alphabets) with conformance checking against an executable reference model"),
  "C13": dict(level="model_checking", design="DESIGN.md §4 C13",
